@@ -318,3 +318,81 @@ class BlackFWhiteFprime(Contract):
         import numpy; return {'f': numpy.tanh}
     def oracle(self, inp, scal, cfg):
         import math; return {self.out_key(cfg): SI.bfwf(inp['x_data'], inp['fprime_data'], math.tanh(inp['x_data'][0]))}
+
+
+# ---------------------------------------------------------------------------------------------- powers
+@register
+class PowReal(Contract):
+    """y = x**r.  Configurations follow the branches of the code: Python int r = 0, 1, 2, r >= 3 (repeated _mul with out aliased to y),
+    and the general real exponent (also negative ints since fix 340a593 only on the pullback side; forward: every non-int or negative r)."""
+    qual = A('_pow_real'); arrays = ('x_data', 'out'); scalars = {'r': 'real'}; modifies = ('out',); returns = 'any'
+    cfgs = {'real': {'r': 'real'}, 'int0': {'r': 0}, 'int1': {'r': 1}, 'int2': {'r': 2}, 'int_ge3': {'r': 'int'}, 'int_neg': {'r': 'int'}}
+    property_ids = ('C01', 'C02', 'C12', 'C14')
+    def skolem_for(self, cfg): return cfg.startswith('int') and cfg != 'int_neg'
+    def cfg_assumptions(self, c, cfg):
+        r = scalar_of(c, 'r')
+        if cfg == 'int_ge3': return [r.t >= 3]
+        if cfg == 'int_neg': return [r.t < 0]
+        return []
+    def requires(self, c):
+        r = scalar_of(c, 'r')
+        if isinstance(r, IntV) and (c.ex.entails(r.t >= 0) is True): return []
+        return [c.pre['x_data'][0] != 0]
+    def _kind(self, c):
+        r = scalar_of(c, 'r')
+        if isinstance(r, IntV) and c.ex.entails(r.t >= 0) is True: return 'nat', r.t
+        return 'real', toR(r.t)
+    def ensures(self, c):
+        x = c.pre['x_data']; o = c.cur('out'); kind, r = self._kind(c)
+        if kind == 'nat': return [('out = x^(*r) (repeated Cauchy product)', c.forall(0, c.D, lambda j: o[j] == S.POWN(x, r, j)))]
+        return [('out[d] = POWR(x,r,d)', c.forall(0, c.D, lambda j: o[j] == S.POWR(x, r, j)))]
+    def spec_instances(self, c, n):
+        x = c.pre['x_data']; kind, r = self._kind(c)
+        if kind == 'real': return S.powr_def(c, x, r, n)
+        out = []
+        # POWN definitions at the exponents the branches need: r, r-1, ..., down to 0 for small literal r; (nr+1, nr+2) inside the loop
+        rv = E_ival(r)
+        if rv is not None:
+            for m in range(rv, -1, -1): out += S.pown_def(c, x, z3.IntVal(m), n)
+            if rv == 2: out += S.conv_def(c, x, x, n)
+        else:
+            nr = c.st.env.get('nr')
+            if isinstance(nr, IntV):
+                if z3.eq(z3.simplify(n), z3.simplify(nr.t)): return []        # the loop variable is an exponent here, not an order
+                out += S.pown_def(c, x, nr.t + 1, n)                           # the invariant speaks about x^(*(nr+1)); at the goal nr is already the next value
+            else: out += S.pown_def(c, x, r, n)
+        return out
+    def extra_axioms(self, c):
+        # base case of the repeated product, available under sums:  x^(*1) = x
+        x = c.pre['x_data']; m = z3.Int('m!pw1')
+        return [z3.ForAll([m], S.POWN(x, z3.IntVal(1), m) == x[m])]
+    def invariants(self):
+        def inv_nat(c, nr):          # loop over nr in range(r-1): before iteration nr, y = x^(nr+1)
+            x = c.pre['x_data']; y = c.cur('out')
+            return [c.forall(0, c.D, lambda j: y[j] == S.POWN(x, nr + 1, j))] + c.unchanged('x_data')
+        def inv_real(c, d):
+            x = c.pre['x_data']; y = c.cur('out'); kind, r = self._kind(c)
+            return [c.forall(0, d, lambda j: y[j] == S.POWR(x, r, j))] + c.unchanged('x_data')
+        class Pick(dict):
+            def __init__(s, outer): s.outer = outer
+        # loop 0 is either the nr-loop (int r >= 3) or the d-loop (real r): decided at evaluation time by the configuration
+        def inv0(c, v):
+            kind, r = self._kind(c)
+            return inv_nat(c, v) if kind == 'nat' else inv_real(c, v)
+        return {0: inv0}
+    def native_scalars(self, cfg, rng):
+        self._cfg = cfg
+        return {'r': {'real': rng.choice([2.5, 0.5, -1.5]), 'int0': 0, 'int1': 1, 'int2': 2, 'int_ge3': rng.choice([3, 4, 5, 8, 17, 33]), 'int_neg': rng.choice([-1, -2, -3])}[cfg]}
+    def sample_x0(self, name, rng):
+        # integer powers involve no division: a vanishing zeroth coefficient is inside the domain
+        if getattr(self, '_cfg', '') in ('int0', 'int1', 'int2', 'int_ge3') and name == 'x_data' and rng.random() < 0.3: return 0.0
+        return round(rng.uniform(0.3, 0.9) * 16) / 16
+    def oracle(self, inp, scal, cfg):
+        r = scal['r']
+        if cfg in ('real', 'int_neg'): return {'out': SI.powr(inp['x_data'], r)}
+        return {'out': SI.pown(inp['x_data'], r)}
+
+
+def E_ival(t):
+    t = z3.simplify(t) if z3.is_expr(t) else z3.IntVal(t)
+    return t.as_long() if z3.is_int_value(t) else None
